@@ -109,51 +109,7 @@ func propC14(c *Ctx) {
 	}
 
 	// S2: lint over the packages that hold TCP state.
-	scope := []string{"protocol/transport/tcp", "protocol/header", "stack"}
-	sites := 0
-	for _, fn := range c.P.Funcs {
-		if fn.Pkg == nil {
-			continue
-		}
-		rel := strings.TrimPrefix(fn.Pkg.Pkg.Path(), Mod+"/")
-		in := false
-		for _, s := range scope {
-			if rel == s {
-				in = true
-			}
-		}
-		if !in {
-			continue
-		}
-		Instrs(fn, func(ins ssa.Instruction) {
-			switch x := ins.(type) {
-			case *ssa.BinOp:
-				if isSeqValue(x.X.Type()) || isSeqValue(x.Y.Type()) {
-					sites++
-					switch x.Op {
-					case token.LSS, token.LEQ, token.GTR, token.GEQ:
-						c.Bad(S2, FuncName(fn)+"/raw-order:"+Term(x), c.P.Pos(x.Pos()), "raw "+x.Op.String()+" on seqnum.Value: wrong across the 2^32 wrap; use LessThan/InRange/InWindow")
-					default:
-						c.Ok(S2, FuncName(fn)+"/binop:"+x.Op.String()+":"+Term(x), c.P.Pos(x.Pos()), "wrap-safe operator on seqnum.Value")
-					}
-				}
-			case *ssa.Convert:
-				// widening a Value/Size and then ordering it
-				if (isSeqValue(x.X.Type())) && wider32(x.Type()) {
-					if refs := x.Referrers(); refs != nil {
-						for _, r := range *refs {
-							if b, ok := r.(*ssa.BinOp); ok {
-								switch b.Op {
-								case token.LSS, token.LEQ, token.GTR, token.GEQ, token.SUB:
-									c.Bad(S2, FuncName(fn)+"/widened-order:"+Term(b), c.P.Pos(b.Pos()), "seqnum.Value widened to "+TypeStr(x.Type())+" and then ordered/subtracted: not modular")
-								}
-							}
-						}
-					}
-				}
-			}
-		})
-	}
+	sites := seqLint(c, S2, []string{"protocol/transport/tcp", "protocol/header", "stack"})
 	c.Extra["seqnum_value_binops_in_scope"] = sites
 	// positive fixture: tcpconntrack is known to contain raw orderings of
 	// seqnum.Value; the lint must see them (keeps the zero-expected rule non-vacuous).
@@ -211,4 +167,54 @@ func wider32(t types.Type) bool {
 		return true
 	}
 	return false
+}
+
+// seqLint flags raw ordering comparisons of seqnum.Value (and orderings of
+// widened values) in the given packages; returns the number of binops seen.
+func seqLint(c *Ctx, S2 string, scope []string) int {
+	sites := 0
+	for _, fn := range c.P.Funcs {
+		if fn.Pkg == nil {
+			continue
+		}
+		rel := strings.TrimPrefix(fn.Pkg.Pkg.Path(), Mod+"/")
+		in := false
+		for _, s := range scope {
+			if rel == s {
+				in = true
+			}
+		}
+		if !in {
+			continue
+		}
+		Instrs(fn, func(ins ssa.Instruction) {
+			switch x := ins.(type) {
+			case *ssa.BinOp:
+				if isSeqValue(x.X.Type()) || isSeqValue(x.Y.Type()) {
+					sites++
+					switch x.Op {
+					case token.LSS, token.LEQ, token.GTR, token.GEQ:
+						c.Bad(S2, FuncName(fn)+"/raw-order:"+Term(x), c.P.Pos(x.Pos()), "raw "+x.Op.String()+" on seqnum.Value: wrong across the 2^32 wrap; use LessThan/InRange/InWindow")
+					default:
+						c.Ok(S2, FuncName(fn)+"/binop:"+x.Op.String()+":"+Term(x), c.P.Pos(x.Pos()), "wrap-safe operator on seqnum.Value")
+					}
+				}
+			case *ssa.Convert:
+				// widening a Value/Size and then ordering it
+				if (isSeqValue(x.X.Type())) && wider32(x.Type()) {
+					if refs := x.Referrers(); refs != nil {
+						for _, r := range *refs {
+							if b, ok := r.(*ssa.BinOp); ok {
+								switch b.Op {
+								case token.LSS, token.LEQ, token.GTR, token.GEQ, token.SUB:
+									c.Bad(S2, FuncName(fn)+"/widened-order:"+Term(b), c.P.Pos(b.Pos()), "seqnum.Value widened to "+TypeStr(x.Type())+" and then ordered/subtracted: not modular")
+								}
+							}
+						}
+					}
+				}
+			}
+		})
+	}
+	return sites
 }
